@@ -68,6 +68,24 @@ CHECKS = {
          "run by the acceptor: a reference RFC 6762 cache fed with the provider's multicasts must equal the served records at the end, "
          "be empty after destruction, and no change of name/type/target may happen without a goodbye (codes 40-42).",
          "DESIGN.md section 4 (C12/C13)", "Rocq proof (partial) + reference-listener acceptor + differential correspondence under virtual time"),
+ "C14": ("Theorems (Properties_C14.v, partial, handler level): updateService emits serviceAdded iff the instance is not in the map of added "
+         "services, serviceUpdated only when the stored description differs under Service::operator== (tied to service.cpp: every "
+         "member is compared), only for instances of the browser's own type unless it enumerates; a removal names the stored "
+         "description. Over whole histories (1..3 browsers, private/shared caches, both modes) the life-cycle automaton and the type "
+         "clause are decided per run by the acceptor mon_browser (codes 50-55) on the real Browser's traces under virtual time.",
+         "DESIGN.md section 4 (C14/C15/C19)", "Rocq proof (handler level) + life-cycle acceptor on implementation traces + differential correspondence (QSet order canonicalised)"),
+ "C15": ("Theorem (Properties_C15.v, partial, handler level): every reported description is assembled from the cache content seen - a PTR "
+         "of the type exists, hostname/port from the first SRV, attributes = merge of all TXT - which by C05/C06 is exactly the valid "
+         "records. Backing and freshness over whole histories are decided per run by mon_browser with a reference RFC 6762 cache "
+         "(codes 60-64), including all intermediate states of multi-record messages and simultaneous expiries. One open known finding "
+         "(shared cache replayed by every browser) is reported as KNOWN-FINDING.",
+         "DESIGN.md section 4 (C14/C15/C19)", "Rocq proof (handler level) + reference-cache acceptor on implementation traces + differential correspondence"),
+ "C19": ("Theorems (Properties_C19.v, partial, handler level): the browse question is one PTR question for the type listing exactly the "
+         "cached PTRs of that name and re-arms a timer of at most 60 s (period read from browser.cpp); a refresh warning makes the "
+         "browser ask for that record's name and type. Timeliness over whole histories (period, follow-up SRV+TXT questions, refresh "
+         "instants at 50/85/90/95 % + 0..19 ms, enumerate-all batching within 100 ms) is decided per run by mon_browser (codes 70-74) "
+         "over virtual durations of hours.",
+         "DESIGN.md section 4 (C14/C15/C19)", "Rocq proof (handler level) + timing acceptor on implementation traces under virtual time + differential correspondence"),
  "C16": ("Theorems (Properties_C16.v, partial): shape of the initial A+AAAA query listing exactly the cached address records; every report "
          "caused by a response comes from an A/AAAA record of exactly the name with nonzero TTL not reported before; received address "
          "records are stored. Completeness of reporting and the zero-delay report are decided per run by the acceptor mon_resolver "
